@@ -115,7 +115,7 @@ func genLabels(r *sim.Rand, n int) []string {
 // ---- plan generation --------------------------------------------------------------------
 
 type weights struct {
-	newbug, edit, commit, push, pull, fetch, merge, restart, identmut, remove, clockjump, partition, cachesize, delclocks, query, losecache, cli int
+	newbug, edit, commit, push, pull, fetch, merge, restart, identmut, remove, clockjump, partition, cachesize, delclocks, query, losecache, cli, addremote int
 }
 
 // Generate builds the plan of one run. Everything is drawn from the run seed.
@@ -168,7 +168,7 @@ func (e *Engine) Generate(prop, tier string, seed uint64, run int) *sim.Plan {
 	case "C15":
 		w = weights{newbug: 6, edit: 16, commit: 2, push: 10, pull: 12, remove: 3, restart: 2, identmut: 2, cli: 34}
 	case "C14":
-		w = weights{newbug: 10, edit: 12, commit: 2, push: 14, pull: 14, fetch: 8, remove: 16, restart: 2, identmut: 2, losecache: 3}
+		w = weights{newbug: 10, edit: 12, commit: 2, push: 14, pull: 14, fetch: 8, remove: 16, restart: 2, identmut: 2, losecache: 3, addremote: 2}
 	case "C11":
 		w = weights{newbug: 8, edit: 30, commit: 6, push: 14, pull: 18, fetch: 1, merge: 2, remove: 3, restart: 4, cachesize: 3, losecache: 2, identmut: 4}
 	case "C12":
@@ -253,11 +253,11 @@ func (e *Engine) Generate(prop, tier string, seed uint64, run int) *sim.Plan {
 			st.R = burstRep
 			st.Op = "edit"
 		} else {
-			ws := []int{w.newbug, w.edit, w.commit, w.push, w.pull, w.fetch, w.merge, w.restart, w.identmut, w.remove, w.clockjump, w.partition, w.cachesize, w.delclocks, w.query, w.losecache, w.cli}
+			ws := []int{w.newbug, w.edit, w.commit, w.push, w.pull, w.fetch, w.merge, w.restart, w.identmut, w.remove, w.clockjump, w.partition, w.cachesize, w.delclocks, w.query, w.losecache, w.cli, w.addremote}
 			if len(p.Steps) < 2 {
 				ws = []int{1}
 			}
-			st.Op = []string{"newbug", "edit", "commit", "push", "pull", "fetch", "merge", "restart", "identmut", "remove", "clockjump", "partition", "cachesize", "delclocks", "query", "losecache", "cli"}[r.Weighted(ws)]
+			st.Op = []string{"newbug", "edit", "commit", "push", "pull", "fetch", "merge", "restart", "identmut", "remove", "clockjump", "partition", "cachesize", "delclocks", "query", "losecache", "cli", "addremote"}[r.Weighted(ws)]
 			if st.Op == "edit" && r.Chance(0.15) {
 				burstRep, burstLeft = st.R, r.Range(1, 4)
 			}
@@ -314,6 +314,8 @@ func (e *Engine) Generate(prop, tier string, seed uint64, run int) *sim.Plan {
 			if faults && r.Chance(0.5) && prop != "C11" && prop != "C12" {
 				st.K = "dirty" // C11/C12 sessions are cleanly closed (a stale cache file after a kill is C06's)
 			}
+		case "addremote":
+			st.R = 0 // the replica that starts with a subset of the remotes
 		case "remove":
 			st.K = []string{"", "", "cli", "ident", ""}[r.Intn(5)]
 			st.N = r.Intn(64)
